@@ -79,8 +79,8 @@ SCEN = {
         serves=['C01', 'C04', 'C10'],
         quick=dict(
             wide=cfg(NJobs=2, Procs=2, MaxPid=3, MaxTime=2, Statuses=[-9, 1]),
-            small=[cfg(NJobs=2, Procs=1, MaxPid=2, MaxTime=1, Statuses=[-9], MaxDup=1)],
-            walks=cfg(NJobs=3, Procs=2, MaxPid=4, MaxTime=4, Statuses=[-9, 1, 0], MaxDup=1)),
+            small=[cfg(NJobs=2, Procs=1, MaxPid=2, MaxTime=1, Statuses=[-9, 0], MaxDup=1)],
+            walks=cfg(NJobs=3, Procs=2, MaxPid=4, MaxTime=4, Statuses=[-9, 1, 0, 155], MaxDup=1)),
         thorough=dict(
             wide=cfg(NJobs=2, Procs=2, MaxPid=3, MaxTime=3, Statuses=[-9, 1], MaxDup=1),
             small=[cfg(NJobs=2, Procs=1, MaxPid=2, MaxTime=2, Statuses=[-9, 1], MaxDup=1),
@@ -148,7 +148,7 @@ SCEN = {
         quick=dict(
             wide=cfg(NJobs=2, Procs=2, MaxPid=3, MaxTime=3, Statuses=[-9, 1], Results=['ok'],
                      Grace=1, Periodic=True),
-            small=[cfg(NJobs=1, Procs=1, MaxPid=2, MaxTime=3, Statuses=[-9, 1], Results=['ok'],
+            small=[cfg(NJobs=1, Procs=1, MaxPid=2, MaxTime=3, Statuses=[-9, 1, 155, 0], Results=['ok'],
                        Grace=1, Periodic=True)],
             walks=cfg(NJobs=3, Procs=2, MaxPid=4, MaxTime=6, Statuses=[-9, 1, -11], Grace=2,
                       Periodic=True)),
